@@ -236,6 +236,25 @@ def loc_inside(files_abs, path, line, col):
     maxcol = 1 + len(ln) + 3 * ln.count(b"\t")
     return 1 <= col <= maxcol + 1
 
+def err_tag(text):
+    """first two words of the first error message, literals / numbers / paths masked (used in canonical keys)."""
+    first = ERR_LINE.search(text)
+    msg = text[first.end():].splitlines()[0].strip() if first else "?"
+    return " ".join(re.sub(r"'[^']*'|\"[^\"]*\"|\d+|/\S+", "_", msg).split()[:2])
+
+def artifact_bads(ok, mode, out, text):
+    """no artifact after a failed compilation / an artifact after a successful one.  The key names the target and the
+    first error, so that a leftover of another back end or after another kind of failure is a different finding."""
+    if mode == "t":
+        return []
+    exists = os.path.exists(out)
+    if not ok and exists:
+        return [("artifact:left-after-failure:%s:%s" % (mode, err_tag(text)),
+                 "output artifact %s exists after a failed compilation (first error: %s)" % (os.path.basename(out), err_tag(text)))]
+    if ok and not exists:
+        return [("status:success-without-artifact", "the compilation succeeded but no output artifact was produced")]
+    return []
+
 def check_output(ok, panic, text, files_abs, libs_dir=None):
     """spec-side oracle on one compile. Returns list of (key, what)."""
     bad = []
@@ -264,9 +283,7 @@ def check_output(ok, panic, text, files_abs, libs_dir=None):
             bad.append(("loc:outside", "diagnostic location %s:%d:%d lies outside every input file" % (os.path.basename(p), l, c)))
             break
     if not ok and nerr > 0 and inside == 0:
-        first = ERR_LINE.search(text)
-        msg = text[first.end():].splitlines()[0].strip() if first else "?"
-        msg = " ".join(re.sub(r"'[^']*'|\"[^\"]*\"|\d+|/\S+", "_", msg).split()[:2])
+        msg = err_tag(text)
         bad.append(("noloc:" + msg, "failed without any error located inside an input file (first error: %s)" % msg))
     return bad
 
@@ -738,12 +755,52 @@ def cli_case(work, idx, kind, files, mode, _retry=False):
         bad += check_output(rc == 0, "", text, files_abs, env_libs)
         if rc == 0 and tool_err:
             bad.append(("status:success-with-tool-error", "exit status 0 although the back-end tool chain printed an error"))
-        exists = os.path.exists(out)
-        if rc != 0 and mode != "t" and exists:
-            bad.append(("artifact:left-after-failure", "output artifact %s exists after a failed compilation" % os.path.basename(out)))
-        if rc == 0 and mode != "t" and not exists:
-            bad.append(("status:success-without-artifact", "exit status 0 but no output artifact was produced"))
+        bad += artifact_bads(rc == 0, mode, out, text)
     return dict(rc=rc, wall=wall, text=text[:3000], bad=bad)
+
+# ------------------------------------------------------------------------------------------------ known-finding probes
+
+def probe_known_findings(run, work):
+    """One fixed compile per OPEN known finding of harness/meta/C13.findings.json (its recorded replay input), judged by
+    the same oracle as every other case: the finding's own key is expected (-> KNOWN-FINDING line on every run); any OTHER
+    key the probe produces goes through run.violation as usual; a finding that no longer reproduces gets a NOTE."""
+    opened = [k for k in run.known if k.get("status") == "open"]
+    reqs = []; meta = []
+    for n, k in enumerate(opened):
+        rp = k.get("replay") or {}
+        files = {name: (v.encode("utf8") if isinstance(v, str) else v) for name, v in (rp.get("files") or {}).items()}
+        if "main.fer" not in files:
+            print("NOTE: property=C13 known finding %s has no replayable input" % k["id"])
+            continue
+        cmd = rp.get("cmd", "")
+        mode = "wasm" if "-target wasm" in cmd else "native" if "-o " in cmd else "t"
+        d, fa = write_case(work, 700000 + n, files)
+        out = os.path.join(d, "out.wasm" if mode == "wasm" else "out")
+        reqs.append(dict(id=n, file=os.path.join(d, "main.fer"), mode=mode, out=out))
+        meta.append((n, k, files, fa, mode, out))
+    if not reqs:
+        return
+    res = run_batch(reqs, nproc=1, timeout=120)
+    libs = common.impl().libs
+    reproduced = []
+    for n, k, files, fa, mode, out in meta:
+        r = res[n]
+        bads = check_output(r["ok"], r["panic"], r["out"], fa, libs)
+        if not r["panic"]:
+            bads += artifact_bads(r["ok"], mode, out, r["out"])
+        run.case(("probe", k["id"]), nontrivial=True)
+        run.count("stream:known-finding-probe")
+        hit = False
+        for key, what in bads:
+            if key == k["key"]:
+                hit = True
+            run.violation(key, what, replay_dict("known-finding-probe", files, mode, {"observed": (r["panic"] or r["out"])[:1500]}))
+        if hit:
+            reproduced.append(k["id"])
+        else:
+            print("NOTE: property=C13 known finding %s no longer reproduces on its recorded input (observed keys: %s) — "
+                  "close it in harness/meta/C13.findings.json" % (k["id"], [b[0] for b in bads] or "none"))
+    run.extra["known_finding_probes"] = {"probed": [m[1]["id"] for m in meta], "reproduced": reproduced}
 
 # ------------------------------------------------------------------------------------------------ main
 
@@ -828,6 +885,8 @@ def main(run):
                        "implementation_errors": rr["e"][:10] if rr else None, "correspondence": "Models/LexerTot.tokenize vs lexer.Tokenize",
                        "disagreeing_case_ids": bad[:20]}, no_input=True)
     phase["lexer"] = round(time.time() - tph, 1); tph = time.time()
+    # ---------------- deterministic probes of the open known findings (replayed first, every tier)
+    probe_known_findings(run, work)
     # ---------------- explored part: malformed stream through the in-process driver
     lexed = [token_spans(s, r) if r and not r["p"] else [] for s, r in zip(seeds, run_lexer_hook(seeds))]
     nm = 900 if quick else 7000
@@ -859,11 +918,8 @@ def main(run):
         run.count("stream:" + k.split("+")[0]); run.count("mode:" + mode)
         run.count("verdict:" + ("crash" if r["panic"] else "accepted" if r["ok"] else "rejected"))
         bads = check_output(r["ok"], r["panic"], r["out"], fa, libs)
-        if not r["panic"] and mode != "t":
-            if not r["ok"] and os.path.exists(out):
-                bads.append(("artifact:left-after-failure", "output artifact exists after a failed compilation"))
-            if r["ok"] and not os.path.exists(out):
-                bads.append(("status:success-without-artifact", "Success=true but no output artifact was produced"))
+        if not r["panic"]:
+            bads += artifact_bads(r["ok"], mode, out, r["out"])
         for key, what in bads:
             size = sum(len(v or b"") for v in files.values())
             if key not in seen_keys or size < seen_keys[key][0]:
@@ -871,7 +927,7 @@ def main(run):
     for key, (size, i, what) in sorted(seen_keys.items()):
         k, files, fa, mode, out = meta[i]
         small = files
-        if len(files) == 1 and size > 8 and not key.startswith("hang"):
+        if len(files) == 1 and size > 8 and not key.startswith("hang") and run._match_known(key) is None:
             def still(b, key=key, mode=mode):
                 d2, fa2 = write_case(work, 900000 + rng.randrange(10 ** 6), {"main.fer": b})
                 rr = run_batch([dict(id=0, file=os.path.join(d2, "main.fer"), mode=mode, out=os.path.join(d2, "out"))], nproc=1, timeout=60)[0]
